@@ -193,6 +193,10 @@ pub enum Hostile {
     BogusRef,
     /// many inserted entries (left behind for whoever shares the decoder)
     Polluter,
+    /// size update to 0 followed by an undecodable reference: the block fails *after* it changed the decoder
+    SizeZeroThenBogus,
+    /// entries inserted, then an undecodable reference: the block fails after polluting the table
+    PolluteThenBogus,
 }
 
 pub struct Opts {
@@ -332,7 +336,7 @@ pub fn connection_start(r: &mut Rng, o: &Opts) -> (Vec<u8>, Structure) {
     // header block
     let mut block: Vec<u8> = vec![];
     match o.hostile {
-        Hostile::SizeZero => hp.size_update(&mut block, 0),
+        Hostile::SizeZero | Hostile::SizeZeroThenBogus => hp.size_update(&mut block, 0),
         Hostile::SizeHuge => hp.size_update(&mut block, 1 << 30),
         _ => {}
     }
@@ -350,7 +354,7 @@ pub fn connection_start(r: &mut Rng, o: &Opts) -> (Vec<u8>, Structure) {
             split_points.push(block.len());
         }
     }
-    if o.hostile == Hostile::Polluter {
+    if o.hostile == Hostile::Polluter || o.hostile == Hostile::PolluteThenBogus {
         for _ in 0..r.urange(5, 40) {
             let (n, v) = (format!("x-pollute-{}", token(r, 4)), token(r, 10));
             hp.encode(r, &mut block, &n, &v, Repr::LiteralIndexed);
@@ -358,7 +362,7 @@ pub fn connection_start(r: &mut Rng, o: &Opts) -> (Vec<u8>, Structure) {
             split_points.push(block.len());
         }
     }
-    if o.hostile == Hostile::BogusRef {
+    if matches!(o.hostile, Hostile::BogusRef | Hostile::SizeZeroThenBogus | Hostile::PolluteThenBogus) {
         hp.bogus_dynamic_ref(&mut block, r.urange(0, 5));
     }
 
